@@ -28,12 +28,14 @@ def prepare(rnd, ids):
         d = P[pid]
         txt = "%s: %s\n\nSTATEMENT: %s\n\nQUANTIFIER: %s\n\nMECHANISM ANCHORS: %s\n" % (
             d["id"], d["title"], d["statement"], d["quantifier"]["text"], json.dumps(d["anchors"]["mechanism"], indent=1))
-        txt += "\nALREADY EXPLORED in earlier rounds (do something DIFFERENT in mechanism and trigger):\n"
-        for m in sorted(glob.glob(os.path.join(VERIF, "seeded", pid + "-*", "meta.json"))):
+        plain = os.environ.get("SEED_PLAIN") == "1"   # round 6: the property text only, nothing derived from /verif
+        if not plain:
+            txt += "\nALREADY EXPLORED in earlier rounds (do something DIFFERENT in mechanism and trigger):\n"
+        for m in [] if plain else sorted(glob.glob(os.path.join(VERIF, "seeded", pid + "-*", "meta.json"))):
             mm = json.load(open(m))
             txt += " - %s (needs: %s)\n" % (str(mm.get("what_changed"))[:260].replace("\n", " "), str(mm.get("needs_to_manifest"))[:160].replace("\n", " "))
         opens = [f for f in kf["findings"] if f["property"] == pid and f["status"] == "open"]
-        if opens:
+        if opens and not plain:
             txt += "\nKNOWN, ALREADY ACCEPTED LIMITATIONS of the unchanged code (do NOT use these as your breakage):\n"
             for f in opens:
                 txt += " - %s\n" % str(f.get("what", f.get("key", "")))[:300].replace("\n", " ")
@@ -41,7 +43,7 @@ def prepare(rnd, ids):
             hint = json.load(open(os.path.join(VERIF, "tools", "seedhints.json"))).get(pid)
         except Exception:  # noqa
             hint = None
-        if hint:
+        if hint and not plain:
             txt += "\nHINT: %s Choose a code path that none of the changes listed above touched.\n" % hint
         open(os.path.join(od, "property.txt"), "w").write(txt)
         base = subprocess.check_output(["git", "-C", "/repo", "rev-parse", "--short", "HEAD"], text=True).strip()
